@@ -387,7 +387,7 @@ def run(ctx):
 
     # ---------------------------------------------------------------- (2) E: all short lines
     # (alphabet, longest variable part, previous line, sharded by first symbol?)
-    plans = ([("full", 4, "0", False), ("full", 3, "1", False), ("osc", 4, "01", False), ("csi", 4, "0", False)] if q else
+    plans = ([("full", 4, "0", False), ("full", 3, "1", False), ("osc", 4, "0", False), ("csi", 4, "0", False)] if q else
              [("full", 4, "01", False), ("red", 5, "0", True), ("osc", 5, "01", False), ("csi", 5, "0", True),
               ("csi", 4, "1", False)])
     nshards = {"full": 24, "red": 17, "osc": 11, "csi": 14}
@@ -451,7 +451,7 @@ def run(ctx):
     judge_records(ctx, h, judged, "replayed", st, recs=judged)
     del judged
     rng = ctx.rng
-    nj = ctx.pick(1200, 20000)
+    nj = ctx.pick(800, 20000)
     inputs = []
     for i in range(nj):
         exotic = "none" if i % 5 else rng.choice(["st", "empty"])
